@@ -429,3 +429,80 @@ Section EmptyElems.
     end.
 
 End EmptyElems.
+
+(* ---------- the domain of C13 w.r.t. finding F-13a, relative to the decoded message ----------
+   arg_free S t v: no struct that the decoder of type t visits while reading v is compiled with BOTH keep and is_arg
+   (such a struct takes `remaining - 2` bytes of the whole buffer).  It replaces the schema-wide no_keep_arg: a keep build
+   of a service IDL has argument structs, but every type that does not reach one is in the domain for every message
+   (no_keep_arg_reach below is the type-level sufficient condition). *)
+Section ArgFree.
+  Variable S : schema.
+
+  Fixpoint arg_free (t : ty) (v : tval) {struct v} : bool :=
+    match v with
+    | VList _ l =>
+        match resolve S t with
+        | TyList et => (fix go (l : list tval) : bool := match l with [] => true | x :: r => arg_free et x && go r end) l
+        | _ => true
+        end
+    | VSet _ l =>
+        match resolve S t with
+        | TySet et => (fix go (l : list tval) : bool := match l with [] => true | x :: r => arg_free et x && go r end) l
+        | _ => true
+        end
+    | VMap _ _ l =>
+        match resolve S t with
+        | TyMap kt vt =>
+            (fix go (l : list (tval * tval)) : bool :=
+               match l with [] => true | (a, b) :: r => arg_free kt a && arg_free vt b && go r end) l
+        | _ => true
+        end
+    | VStruct fs =>
+        match resolve S t with
+        | TyRef n =>
+            match lookup S n with
+            | Some (DStruct dfs keep ia) =>
+                negb (keep && ia) &&
+                (fix go (fs : list (Z * tval)) : bool :=
+                   match fs with
+                   | [] => true
+                   | (id, x) :: r =>
+                       match match_field S dfs O (Some id) (ttype_of x) with
+                       | Some (_, f) => arg_free (f_ty f) x
+                       | None => true
+                       end && go r
+                   end) fs
+            | Some (DUnion vs _ _) =>
+                (fix go (fs : list (Z * tval)) : bool :=
+                   match fs with
+                   | [] => true
+                   | (id, x) :: r =>
+                       match variant_by_id S vs id with
+                       | Some vt => arg_free vt x
+                       | None => true
+                       end && go r
+                   end) fs
+            | _ => true
+            end
+        | _ => true
+        end
+    | _ => true
+    end.
+
+  (* type-level: one step of "the decoder of t may call the decoder of u" *)
+  Inductive tstep : ty -> ty -> Prop :=
+  | ts_list t et : resolve S t = TyList et -> tstep t et
+  | ts_set t et : resolve S t = TySet et -> tstep t et
+  | ts_mapk t kt vt : resolve S t = TyMap kt vt -> tstep t kt
+  | ts_mapv t kt vt : resolve S t = TyMap kt vt -> tstep t vt
+  | ts_field t n dfs kp ia f : resolve S t = TyRef n -> lookup S n = Some (DStruct dfs kp ia) -> In f dfs -> tstep t (f_ty f)
+  | ts_variant t n vs vok kp id vt : resolve S t = TyRef n -> lookup S n = Some (DUnion vs vok kp) -> In (id, vt) vs -> tstep t vt.
+
+  Inductive treach : ty -> ty -> Prop :=
+  | tr_refl t : treach t t
+  | tr_step t u w : tstep t u -> treach u w -> treach t w.
+
+  (* no struct reachable from T is both keep and is_arg *)
+  Definition no_keep_arg_reach (T : ty) : Prop :=
+    forall u n dfs ia, treach T u -> resolve S u = TyRef n -> lookup S n = Some (DStruct dfs true ia) -> ia = false.
+End ArgFree.
